@@ -317,6 +317,48 @@ fn one_dev<P: Protocol>(run: u64, stream: u64, mode: Mode, steps: u64, focus: &s
     t
 }
 
+/// Unencrypted sessions only: node 2 dials node 1 (which trusts its key) and restarts before the pong arrives, now with a
+/// key node 1 does not trust; the new instance dials again (node 1 refuses that ping) and then receives the pong meant
+/// for its predecessor.  Without a cipher nothing ties a pong to the ping it answers.
+fn stale_pong_scenario(stream: u64) -> Vec<String> {
+    use crate::crypto::Crypto;
+    let mut sim: Sim<Frame> = Sim::new(stream);
+    sim.trace_on();
+    sim.budget = 40;
+    let pubs: Vec<String> = KEYS.iter().map(|k| Crypto::generate_keypair(Some(k)).1).collect();
+    let mk = |own: usize, trusted: &[usize]| {
+        let mut c = base_config(Mode::Switch);
+        c.crypto.algorithms = vec!["plain".into()];
+        c.crypto.password = Some(KEYS[own].into());
+        c.crypto.trusted_keys = trusted.iter().map(|k| pubs[*k].clone()).collect();
+        c
+    };
+    sim.add_node(false, &mk(0, &[1]));      // node 1: key alpha, trusts beta only
+    sim.add_node(false, &mk(1, &[0]));      // node 2: key beta, trusts alpha
+    let a1 = sim.nodes[0].addr;
+    sim.faults.cut.insert((1, 2));          // node 1's answers are held back ...
+    sim.connect(1, a1);
+    sim.deliver_due();
+    let pong: Option<Dgram> = sim.wire.iter().find(|d| d.from == 1 && d.bytes.first() == Some(&0xff)).cloned();
+    sim.restart(1, Some(&mk(2, &[0])));     // node 2 comes back with key gamma (node 1 does not trust it), still trusting alpha
+    sim.connect(1, a1);
+    sim.deliver_due();                      // node 1 refuses the new ping
+    sim.faults.cut.clear();
+    if let Some(d) = pong {
+        let to = sim.nodes[1].addr;
+        let _ = to;
+        sim.inject_copy(1, a1, &d, sim.now); // ... and the pong for the old instance arrives now
+    }
+    sim.deliver_due();
+    for _ in 0..5 {
+        sim.tick();
+    }
+    let panics = sim.total_panics();
+    let mut t = sim.trace_take();
+    t.push(json!({"op": "end", "run": 0, "panics": panics}).to_string());
+    t
+}
+
 pub fn run(tier: &str, out_path: &str, first: u64, count: u64, focus: &str) -> Value {
     let (runs, steps): (u64, u64) = if count > 0 { (count, 60) } else if tier == "quick" { (36, 60) } else { (600, 120) };
     let ids: Vec<u64> = (first..first + runs).collect();
@@ -342,6 +384,10 @@ pub fn run(tier: &str, out_path: &str, first: u64, count: u64, focus: &str) -> V
             _ => one_dev::<Packet>(*k, stream, Mode::Hub, steps, focus, false),
         }
     });
+    let mut results = results;
+    if focus == "C01" {
+        results.push(stale_pong_scenario(77000 + first + seed() * 1_000_000));
+    }
     let mut lines = 0usize;
     {
         use std::io::Write;
